@@ -13,6 +13,7 @@ import PasfmtModel.Proofs.PassCover
 import PasfmtModel.Proofs.ConsolidatorsCdc
 import PasfmtModel.Proofs.ConsolidatorsGen
 import PasfmtModel.Proofs.ParserFullSound
+import PasfmtModel.Proofs.ParserParentsMutual
 
 namespace Pasfmt.C14
 
@@ -633,5 +634,214 @@ theorem parser_model_final_lines_wellformed (toks : List (RawKind × Bool)) (o :
       · rw [Array.getElem?_eq_none h1] at hk; cases hk
     rw [← hlen] at this
     simpa using this
+
+end Pasfmt.C14
+
+/-! ### exactly one line per token, parent references, the end-of-file line
+
+Proofs: `Proofs/ParserParents.lean` (consolidation of passes), `Proofs/ParserParentsFlow.lean` and
+`Proofs/ParserParentsMutual.lean` (an invariant of the control flow of the parser model, proved for every function
+of `Model/ParserFull.lean`). -/
+
+namespace Pasfmt.C14
+
+open Pasfmt.Parents
+
+/-- the kinds of `begin a; end.` -/
+def exBeginEnd : List (RawKind × Bool) :=
+  [(.rKeyword .kBegin, false), (.rIdentifier, false), (.rOp .oSemicolon, false), (.rKeyword .kEnd, false),
+   (.rOp .oDot, false), (.rEof, false)]
+
+/-- the kinds of `begin if a then b; end.` -/
+def exIfThen : List (RawKind × Bool) :=
+  [(.rKeyword .kBegin, false), (.rKeyword .kIf, false), (.rIdentifier, false), (.rKeyword .kThen, false),
+   (.rIdentifier, false), (.rOp .oSemicolon, false), (.rKeyword .kEnd, false), (.rOp .oDot, false), (.rEof, false)]
+
+/-- the kinds of `begin {$ifdef A} if a then {$else} if b then {$endif} c; end.` -/
+def exTwoPasses : List (RawKind × Bool) :=
+  [(.rKeyword .kBegin, false), (.rConditionalDirective .dIfdef, false), (.rKeyword .kIf, false), (.rIdentifier, false),
+   (.rKeyword .kThen, false), (.rConditionalDirective .dElse, false), (.rKeyword .kIf, false), (.rIdentifier, false),
+   (.rKeyword .kThen, false), (.rConditionalDirective .dEndif, false), (.rIdentifier, false), (.rOp .oSemicolon, false),
+   (.rKeyword .kEnd, false), (.rOp .oDot, false), (.rEof, false)]
+
+/-- the kinds of the ill-formed `if then record case` -/
+def exIllFormedIf : List (RawKind × Bool) :=
+  [(.rKeyword .kIf, false), (.rKeyword .kThen, false), (.rKeyword .kRecord, false), (.rKeyword .kCase, false),
+   (.rEof, false)]
+
+/-- the kinds of the ill-formed `x := function begin` -/
+def exIllFormedEof : List (RawKind × Bool) :=
+  [(.rIdentifier, false), (.rOp .oAssign, false), (.rKeyword .kFunction, false), (.rKeyword .kBegin, false),
+   (.rEof, false)]
+
+/-- **When the file has no conditional directives, every token is in exactly one logical line** (C14, "exactly one"),
+    for every input on which the parser model answers.  First part: the token lists of the final lines, read one after
+    the other, have no repetition (so no token is in two lines, nor twice in one).  Second part, with
+    `parser_model_covers_every_token`: every token position has exactly one line position that holds it.
+    The hypothesis excludes files with `{$if..}`/`{$else}`/`{$endif}`: there a token behind the directives is parsed
+    once per pass and may end up in several lines (`token_in_two_lines_with_conditionals`). -/
+theorem parser_model_exactly_one_without_conditionals (toks : List (RawKind × Bool)) (o : ParseFullOut)
+    (h : parseFileFull toks = some o) (hnc : ∀ k ∈ toks.map (·.1), condKind? k = none) :
+    (o.lines.flatMap (·.tokens)).Nodup ∧
+    ∀ i, i < toks.length →
+      ∃ j, (∃ l, o.lines[j]? = some l ∧ i ∈ l.tokens) ∧
+        ∀ (j' : Nat) (l' : PLine), o.lines[j']? = some l' → i ∈ l'.tokens → j' = j := by
+  have hnd := final_lines_nodup_without_conditionals toks o h hnc
+  refine ⟨hnd, ?_⟩
+  intro i hi
+  obtain ⟨l, hl, hil⟩ := parser_model_covers_every_token toks o h i hi
+  obtain ⟨j, hj⟩ := List.getElem?_of_mem hl
+  exact ⟨j, ⟨l, hj, hil⟩, fun j' l' hj' hil' => nodup_flat_index hnd hj' hj hil' hil⟩
+
+/-- non-vacuity: `begin a; end.` has no conditional directive, the model answers, and its lines are
+    `begin` / `a ;` / `end .` / end of file -/
+example : (∀ k ∈ exBeginEnd.map (·.1), condKind? k = none) ∧
+    (parseFileFull exBeginEnd).map (·.lines.map (·.tokens)) = some [[0], [1, 2], [3, 4], [5]] := by
+  decide +kernel
+
+/-- the hypothesis of `parser_model_exactly_one_without_conditionals` is needed: in
+    `begin {$ifdef A} if a then {$else} if b then {$endif} c; end.` the tokens `c ;` (10, 11) are in two final lines,
+    one per pass (the two lines differ in their parent) -/
+theorem token_in_two_lines_with_conditionals :
+    (parseFileFull exTwoPasses).map (fun o => o.lines.filter (fun l => l.tokens.contains 10)) =
+      some [{ parent := some ⟨1, 4⟩, level := 1, tokens := [10, 11], ltype := .lUnknown },
+            { parent := some ⟨5, 8⟩, level := 1, tokens := [10, 11], ltype := .lUnknown }] := by
+  decide +kernel
+
+/-- **In the lines of every pass, every parent reference points at a line of the pass that holds the parent token** -
+    for every input on which the parser model answers, ill-formed input included.  This is a fact about the control
+    flow: a parent reference is taken from the current line and the current token
+    (`get_line_parent_of_current_token`) and `next_token` puts that token onto that line before the reference is used;
+    lines never lose tokens.  (For an arbitrary trace of the line builder nothing of the kind holds: the references
+    are arguments of the primitives `pushLine` and `finish`.)  `parentsOk` is the decidable check
+    `Parents.passParentsOk` on every pass. -/
+theorem parser_model_pass_parents_contain_token (toks : List (RawKind × Bool)) (o : ParseFullOut)
+    (h : parseFileFull toks = some o) : parentsOk o = true :=
+  parentsOk_holds toks o h
+
+/-- **A child line's parent line precedes it and contains the parent token** (C14, parent clause) - in the final lines,
+    for every input on which the parser model answers.  No well-formedness hypothesis is needed for the final lines,
+    because consolidation drops a parent reference that does not point at an earlier line of its pass (see
+    `pass_line_can_be_its_own_parent`), remaps the others, and merges equal lines without moving any. -/
+theorem parser_model_parent_contains_token (toks : List (RawKind × Bool)) (o : ParseFullOut)
+    (h : parseFileFull toks = some o) :
+    ∀ (i : Nat) (l : PLine) (p : LineParent), o.lines[i]? = some l → l.parent = some p →
+      p.lineIndex < i ∧ ∃ pl, o.lines[p.lineIndex]? = some pl ∧ p.tokenIndex ∈ pl.tokens :=
+  final_parents toks o h
+
+/-- the same from the check alone (what consolidation does to parent references): if `parentsOk` holds for the lines
+    of the passes then the parent clause holds for the final lines -/
+theorem parent_clause_of_parentsOk (toks : List (RawKind × Bool)) (o : ParseFullOut)
+    (h : parseFileFull toks = some o) (hg : parentsOk o = true) :
+    ∀ (i : Nat) (l : PLine) (p : LineParent), o.lines[i]? = some l → l.parent = some p →
+      p.lineIndex < i ∧ ∃ pl, o.lines[p.lineIndex]? = some pl ∧ p.tokenIndex ∈ pl.tokens :=
+  final_parents_contain_token toks o h hg
+
+/-- non-vacuity: in `begin if a then b; end.` the line `b ;` (final line 2) has the parent line 1 (`if a then`) and
+    the parent token 3 (`then`) -/
+example : (parseFileFull exIfThen).map (fun o => o.lines.map (fun l => (l.parent, l.tokens))) =
+    some [(none, [0]), (none, [1, 2, 3]), (some ⟨1, 3⟩, [4, 5]), (none, [6, 7]), (none, [8])] := by
+  decide +kernel
+
+/-- the quirk on ill-formed input: for `if then record case` the line builder ends the pass with line 0 (`if then`)
+    as its own parent, so "the parent line precedes the child line" is false for the lines of a pass; consolidation
+    drops that reference (the final line 0 has no parent) -/
+theorem pass_line_can_be_its_own_parent :
+    (parseFileFull exIllFormedIf).map (fun o => (o.passLines.map (fun ls => ls.head?), o.lines.head?)) =
+      some ([some { parent := some ⟨0, 1⟩, level := 1, tokens := [0, 1], ltype := .lUnknown }],
+            some { parent := none, level := 1, tokens := [0, 1], ltype := .lUnknown }) := by
+  decide +kernel
+
+/-- **In the lines of every pass at most one line is typed `Eof`** - for every input on which the parser model answers.
+    A fact about the control flow: only the last `set_logical_line_type` of `parse` makes an `Eof` line, out of the line
+    that is current then; every other function leaves the line types other than `Eof`. -/
+theorem parser_model_at_most_one_eof_line_per_pass (toks : List (RawKind × Bool)) (o : ParseFullOut)
+    (h : parseFileFull toks = some o) :
+    ∀ ls ∈ o.passLines, ∀ (i j : Nat) (li lj : PLine), ls[i]? = some li → ls[j]? = some lj →
+      li.ltype = .lEof → lj.ltype = .lEof → i = j := by
+  intro ls hls i j li lj hi hj hti htj
+  obtain ⟨_, top, htop⟩ := passLines_ok toks o h ls hls
+  have a := htop i li hi hti
+  have b := htop j lj hj htj
+  rw [← b] at a
+  exact Option.some.inj a
+
+/-- **Without conditional directives at most one final line is typed `Eof`** - for every input on which the parser
+    model answers (ill-formed input included: there may be none, see `eof_token_can_be_swallowed`). -/
+theorem parser_model_at_most_one_eof_line_without_conditionals (toks : List (RawKind × Bool)) (o : ParseFullOut)
+    (h : parseFileFull toks = some o) (hnc : ∀ k ∈ toks.map (·.1), condKind? k = none) :
+    ∀ (i j : Nat) (li lj : PLine), o.lines[i]? = some li → o.lines[j]? = some lj →
+      li.ltype = .lEof → lj.ltype = .lEof → i = j := by
+  obtain ⟨kinds, acc, _, hacc, _, _, hfinal⟩ := parseFileFull_spec toks o h
+  obtain ⟨ls, hpl⟩ := single_pass toks o h hnc
+  rw [hpl] at hacc
+  have hacc' := consolidateAll_single ls acc hacc
+  have hone := parser_model_at_most_one_eof_line_per_pass toks o h ls (by rw [hpl]; simp)
+  -- a final line typed `Eof` has the tokens of a line of the pass typed `Eof`
+  have src : ∀ l ∈ o.lines, l.ltype = .lEof → ∃ l0 ∈ ls, l.tokens = l0.tokens ∧ l0.ltype = .lEof := by
+    intro l hl ht
+    rcases Parents.consolidateGo_lines_from acc [] _ o.lines hfinal l hl with h1 | ⟨d, hd, _, e2, _, _⟩
+    · rcases Parents.consolidateGo_lines_from [] [] ls acc hacc' l h1 with h2 | ⟨l0, hl0, e1, e2, _, _⟩
+      · cases h2
+      · exact ⟨l0, hl0, e1, by rw [← e2]; exact ht⟩
+    · exfalso
+      obtain ⟨_, hty, _⟩ := directiveLines_mem _ 0 _ d hd
+      rw [ht] at e2
+      rcases hty with b | b <;> rw [b] at e2 <;> cases e2
+  intro i j li lj hi hj hti htj
+  obtain ⟨a, ha, ea, ta⟩ := src li (List.mem_of_getElem? hi) hti
+  obtain ⟨b, hb, eb, tb⟩ := src lj (List.mem_of_getElem? hj) htj
+  obtain ⟨ia, hia⟩ := List.getElem?_of_mem ha
+  obtain ⟨ib, hib⟩ := List.getElem?_of_mem hb
+  have hab := hone ia ib a b hia hib ta tb
+  subst hab
+  rw [hia] at hib
+  have hab : a = b := Option.some.inj hib
+  subst hab
+  -- the two final lines share a token, and no token is in two final lines
+  obtain ⟨hne, _, _⟩ := parser_model_final_lines_wellformed toks o h li (List.mem_of_getElem? hi)
+  obtain ⟨t, ht⟩ := List.exists_mem_of_ne_nil _ hne
+  exact nodup_flat_index (final_lines_nodup_without_conditionals toks o h hnc) hi hj ht (by rw [eb, ← ea]; exact ht)
+
+/-- **Exactly one end-of-file line, holding only the end-of-file token** (C14, last clause), under two decidable
+    hypotheses: the file ends with the end-of-file token (true of every scanner output), and `eofLineInEveryPass`:
+    the lines of every pass include the line `Eof, level 0, no parent, [last token]`.  Conclusion: the final lines hold
+    that line at exactly one position `j`, and every final line that has type `Eof` or holds the end-of-file token is
+    at position `j`.  What the hypothesis excludes: the control flow consuming the end-of-file token before the last
+    `next_token` of `parse` (then the token sits in an ordinary line and no line has type `Eof`:
+    `eof_token_can_be_swallowed`), or contexts still open at the end of `parse` (then level or parent of the line
+    differ).  That no pass has a second `Eof` line need not be assumed
+    (`parser_model_at_most_one_eof_line_per_pass`). -/
+theorem parser_model_single_eof_line (toks : List (RawKind × Bool)) (o : ParseFullOut)
+    (h : parseFileFull toks = some o) (hlast : (toks.map (·.1)).getLast? = some .rEof)
+    (hg : eofLineInEveryPass o = true) :
+    ∃ j, o.lines[j]? = some (eofLine toks.length) ∧
+      ∀ (j' : Nat) (l : PLine), o.lines[j']? = some l → (l.ltype = .lEof ∨ (toks.length - 1) ∈ l.tokens) → j' = j :=
+  final_single_eof_line' toks o h hlast hg
+
+/-- the hypothesis can equally be put as `eofOk`: in the lines of every pass, the lines typed `Eof` are exactly
+    `[Eof, level 0, no parent, [last token]]` -/
+theorem eof_hypotheses_equivalent (toks : List (RawKind × Bool)) (o : ParseFullOut)
+    (h : parseFileFull toks = some o) : eofOk o = true ↔ eofLineInEveryPass o = true :=
+  eofOk_iff toks o h
+
+/-- non-vacuity: `begin a; end.` satisfies the hypotheses of `parser_model_single_eof_line` -/
+example : (exBeginEnd.map (·.1)).getLast? = some .rEof ∧
+    (parseFileFull exBeginEnd).map eofLineInEveryPass = some true := by
+  decide +kernel
+
+/-- non-vacuity with two passes: `begin {$ifdef A} if a then {$else} if b then {$endif} c; end.` satisfies the
+    hypotheses too, and the two end-of-file lines of its two passes are one final line -/
+example : (exTwoPasses.map (·.1)).getLast? = some .rEof ∧
+    (parseFileFull exTwoPasses).map (fun o => (eofLineInEveryPass o, o.passLines.length,
+      (o.lines.filter (fun l => l.ltype == .lEof)).map (·.tokens))) = some (true, 2, [[14]]) := by
+  decide +kernel
+
+/-- the hypothesis is needed: for the ill-formed `x := function begin` the model (like the parser) answers one line of
+    type `Assignment` holding all five tokens, the end-of-file token included; no line has type `Eof` -/
+theorem eof_token_can_be_swallowed :
+    (parseFileFull exIllFormedEof).map (fun o => (eofLineInEveryPass o, o.lines)) =
+      some (false, [{ parent := none, level := 0, tokens := [0, 1, 2, 3, 4], ltype := .lAssignment }]) := by
+  decide +kernel
 
 end Pasfmt.C14
